@@ -301,3 +301,61 @@ void h_bde(void)
 	V_CANARY("bde");
 }
 #endif
+
+/* ---- belt-wbl (wide block, STB 34.101.31 6.2.3) and belt-sde (sector encryption) ----
+   spec of encryption, r = r_1 || ... with r_1 .. r_{n-1} the leading 128-bit blocks, r* the LAST 128 bits, n = ceil(|r| / 128):
+     for i = 1 .. 2n:  s <- r_1 ^ ... ^ r_{n-1};  r* <- r* ^ E(s) ^ <i>_128;  r <- ShLo^128(r);  r* <- s
+   The real code has a base and an optimised (running-sum, in-place rotating) implementation, switched at 64 octets (encryption)
+   and 80 octets (decryption) for whole-block lengths; both are compared with this one text. */
+static void spec_wbl(octet r[], size_t count, const u32 key[8])
+{
+	size_t n = (count + 15) / 16, round, j, i;
+	octet s[16], t[16];
+	for (round = 1; round <= 2 * n; ++round)
+	{
+		o_copy(s, r, 16);
+		for (j = 1; j + 1 < n; ++j) o_xor(s, s, r + 16 * j, 16);
+		E(t, s, key);
+		for (i = 0; i < 8; ++i) t[i] ^= (octet)(round >> (8 * i));
+		o_xor(r + count - 16, r + count - 16, t, 16);
+		for (i = 0; i + 16 < count; ++i) r[i] = r[i + 16];
+		o_copy(r + count - 16, s, 16);
+	}
+}
+#if (CNT >= 32)
+void h_wbl(void)
+{
+	SETUP;
+	V_ALLOC(octet, state, beltWBL_keep());
+	o_copy(e, x0, CNT);
+	spec_wbl(e, CNT, K);
+	o_copy(buf, x0, CNT);
+	beltWBLStart(state, key, KLEN);
+	beltWBLStepE(buf, CNT, state);
+	V_ASSERT(o_eq(buf, e, CNT), "beltWBLStepE == belt-wbl of STB 34.101.31 (2n rounds over E)");
+	beltWBLStepD(buf, CNT, state);
+	V_ASSERT(o_eq(buf, x0, CNT), "beltWBLStepD inverts beltWBLStepE");
+	V_CANARY("wbl");
+}
+#if (CNT % 16 == 0)
+void h_sde(void)
+{
+	SETUP;
+	octet s[16];
+	V_ALLOC(octet, state, beltSDE_keep());
+	/* spec: s <- E(S); r <- X; r_1 <- r_1 ^ s; r <- belt-wbl(r); r_1 <- r_1 ^ s */
+	E(s, iv, K);
+	o_copy(e, x0, CNT);
+	o_xor(e, e, s, 16);
+	spec_wbl(e, CNT, K);
+	o_xor(e, e, s, 16);
+	o_copy(buf, x0, CNT);
+	beltSDEStart(state, key, KLEN);
+	beltSDEStepE(buf, CNT, iv, state);
+	V_ASSERT(o_eq(buf, e, CNT), "beltSDEStepE == belt-sde: XEX cascade of belt-wbl with s = E(S)");
+	beltSDEStepD(buf, CNT, iv, state);
+	V_ASSERT(o_eq(buf, x0, CNT), "beltSDEStepD inverts beltSDEStepE");
+	V_CANARY("sde");
+}
+#endif
+#endif
